@@ -27,6 +27,11 @@ ALPHABETS = {
     "update-delete": ("statements", ["UPDATE", "DELETE", "FROM", "t", "SET", "a = 1", ",", "WHERE", "a", "ORDER BY a", "LIMIT 1", "b = 2"], 6, 4),
     # column definitions
     "ddl-column": ("define_column_expression", ["c", "int", "(3)", "NOT", "NULL", "DEFAULT", "1", "COMMENT", "'x'", "AUTO_INCREMENT", "UNSIGNED", "ON UPDATE", "PRIMARY KEY", "GENERATED ALWAYS AS", "(a)", "VIRTUAL"], 5, 3),
+    # the remaining column attributes in every order (an attribute branch that also looks at what follows resets what came before), and the index forms with their
+    # options in every order (an option accepted in a second position must not lose what was read in the first)
+    "ddl-column-2": ("define_column_expression", ["c", "int", "ZEROFILL", "UNSIGNED", "NOT NULL", "NULL", "CHARACTER SET", "utf8", "COLLATE", "utf8_bin", "COMMENT 'x'", "DEFAULT 1", "KEY", "UNIQUE", "AUTO_INCREMENT"], 5, 4),
+    "ddl-index": ("column_or_index", ["PRIMARY KEY", "UNIQUE KEY", "KEY", "FULLTEXT KEY", "k", "(a)", "(a(3), b)", "USING", "BTREE", "COMMENT", "'x'", "KEY_BLOCK_SIZE", "=", "4"], 5, 4),
+    "ddl-fk": ("column_or_index", ["CONSTRAINT", "fk", "FOREIGN KEY", "(a)", "REFERENCES", "p", "(id)", "ON", "DELETE", "UPDATE", "CASCADE", "SET NULL", "NO ACTION", "RESTRICT"], 5, 4),
     "ddl-create": ("statements", ["CREATE TABLE", "IF NOT EXISTS", "t", "(a int)", "(a int, PRIMARY KEY (a))", "COMMENT", "=", "'x'", "ENGINE", "InnoDB", "PARTITIONED BY", "(dt string)", ";", "STORED AS", "ORC"], 5, 3),
     "ddl-alter": ("statements", ["ALTER TABLE", "t", "ADD", "DROP", "COLUMN", "c", "int", ",", "PARTITION", "(dt = '1')", "IF EXISTS", "IF NOT EXISTS", "RENAME", "TO", "CHANGE"], 5, 3),
 }
